@@ -642,4 +642,33 @@ theorem patch_merged_refs {enc : JVal → String} {expected live ref p : JVal} {
       rw [metaKey_strip (by decide), metaKey_dropMetaKey_self hw hU] at hl
       exact (ownerRefsOf_mergePatch target hn hm hmn).2 hl
 
+/-! ## the server's side of one request, and a lost creation race -/
+
+/-- What the cluster holds under the request's address once the server has handled the request,
+    given what it holds when the request ARRIVES (`now` — which need not be what the load saw:
+    somebody else may have created or removed the object in between).  cluster.py `_apply`: a POST
+    onto an existing object is answered 409 and changes nothing, a PATCH is an RFC 7386 merge-patch
+    (404 when there is nothing to patch), a DELETE removes. -/
+def serverAfter (now : Option JVal) : Option Request → Option JVal
+  | none => now
+  | some r =>
+    match r.method, now with
+    | .post, none => r.body
+    | .post, some o => some o
+    | .patch, some o => some (match r.body with | some b => mergePatch o b | none => o)
+    | .patch, none => none
+    | .delete, _ => none
+
+/-- a reconcile whose load found nothing sends a POST or nothing: never a PATCH, never a DELETE -/
+theorem absent_request_is_post {enc : JVal → String} {defNs : String} {cmp : JVal → JVal → Bool} {pp : Bool}
+    {rf : Rf} {owner : Owner} {req : Request}
+    (h : (reconcile enc defNs cmp pp rf owner none).request = some req) : req.method = .post := by
+  rcases request_cases enc defNs cmp rf owner none req (request_of_reconcile h) with
+    ⟨_, _, _, _, view, p, _, _, hq⟩ | ⟨live, _, _, hl, _⟩ | ⟨live, hl, _⟩
+  · simp only [createRequest, Option.map_eq_some_iff] at hq
+    obtain ⟨o, _, rfl⟩ := hq
+    rfl
+  · simp [loadedOf] at hl
+  · simp [loadedOf] at hl
+
 end Koreo.Rf
